@@ -7,12 +7,12 @@ from .. import scenes, obs, oracles, twin, pipeline
 ID, NUM, LEVEL = 'C10', 10, 'exploration'
 VARIANTS = ['idx_permuted', 'idx_offset', 'idx_string', 'idx_float', 'idx_concat', 'idx_random_repeats', 'idx_all_same',
             'idx_sorted_repeats', 'idx_datetime', 'idx_named_like_column', 'idx_multi_from_columns', 'idx_range_descending', 'idx_range_offset', 'idx_exotic_type', 'cols_stale_ids', 'cols_permuted', 'cols_extra', 'ceilo_object', 'ceilo_str_or_category',
-            'type_float', 'type_narrow_int', 'dt_height_int', 'height_float32']
+            'type_float', 'type_narrow_int', 'dt_height_int', 'height_float32', 'dtype_big_endian', 'frame_flags_and_attrs']
 RULE = ('Evaluation = one (plainly indexed frame, variant frame) pair run through the real pipeline; the two canonical '
         'observations (three tables incl. dtypes, three messages, flag, per-hit data by position) must be bit-'
         'identical and the variant must not raise. Variants: ' + ', '.join(VARIANTS) + ' (index relabellings unique '
         'and non-unique - per-ceilometer concat, random repeats, one label for all rows, sorted repeats -, column '
-        'permutations, extra columns, ceilo as object/str/category, type as float/int8/int32, dt and height as '
+        'permutations, extra columns, big-endian dtypes, the no-duplicate-labels flag with attrs, ceilo as object/str/category, type as float/int8/int32, dt and height as '
         'integers or float32 where exact), each with and without an MSA that crops hits (label-based crop path). '
         'Non-trivial = >= 2 valid hits; distinct = hash of (rows, parameters, variant).')
 ASSUMPTIONS = ['dtype variants are used only where the conversion is exact']
@@ -97,6 +97,15 @@ def make_variant(rng, df, name):
             out['height'] = out['height'].astype(np.int64)
     elif name == 'height_float32':
         out['height'] = out['height'].astype(np.float32)
+    elif name == 'dtype_big_endian':
+        # same values in non-native byte order (binary / FITS / netCDF readers)
+        out['dt'] = out['dt'].to_numpy().astype('>f8')
+        out['height'] = out['height'].to_numpy().astype('>f8')
+        out['type'] = out['type'].to_numpy().astype('>i8' if rng.uniform() < 0.5 else '>i2')
+    elif name == 'frame_flags_and_attrs':
+        # pandas' "no duplicate labels" flag and user metadata travel with every copy of the frame
+        out.flags.allows_duplicate_labels = False
+        out.attrs.update({'source': 'reader-x', 'units': {'height': 'ft'}})
     else:
         raise ValueError(name)
     return out
